@@ -322,6 +322,19 @@ func jsonTagCases() []*Case {
 		}}
 		out = append(out, &Case{Label: "F1/jsontag/multi", Family: "F1", Tags: map[string]string{"card": "single", "vt": "jsontag", "class": "scalar", "pos": "P0"}, File: newFile(root), Cfg: BaseConfig("Root")})
 	}
+	{
+		// name forms with digits and acronyms: UpperCamel and lower_snake (snake_case is unambiguous for
+		// all of them: no upper-case letter directly follows a digit)
+		root := &dsl.Message{Name: "Root", Oneofs: []string{"pick_2", "Mode3"}}
+		for i, n := range []string{"Field2", "HTTPPort", "UserID", "MaxAge", "TTL", "ABTest", "MFADevice", "Port80", "port_2", "address_line_2", "e2e_id", "ipv6_addr", "http2_port", "a1b2", "x"} {
+			root.Fields = append(root.Fields, &dsl.Field{Name: n, Num: int32(i + 1), T: []dsl.T{dsl.String, dsl.Int64, dsl.Bool}[i%3]})
+		}
+		root.Fields = append(root.Fields,
+			&dsl.Field{Name: "opt_1", Num: 30, T: dsl.String, Oneof: "pick_2"}, &dsl.Field{Name: "opt2_b", Num: 31, T: dsl.Msg, Ref: "Leaf", Oneof: "pick_2"},
+			&dsl.Field{Name: "M3A", Num: 32, T: dsl.Int32, Oneof: "Mode3"}, &dsl.Field{Name: "m3_b2", Num: 33, T: dsl.Bool, Oneof: "Mode3"},
+			&dsl.Field{Name: "items_2", Num: 34, T: dsl.Msg, Ref: "Leaf", Card: dsl.Repeated}, &dsl.Field{Name: "by_key_2", Num: 35, T: dsl.Int64, Card: dsl.Map})
+		out = append(out, &Case{Label: "F1/names/digits", Family: "F1", Tags: map[string]string{"card": "single", "vt": "names", "class": "scalar", "pos": "P0"}, File: newFile(root), Cfg: BaseConfig("Root")})
+	}
 	for i, tag := range []string{"renamed", "renamed,omitempty", "-", ""} {
 		root := &dsl.Message{Name: "Root", Fields: []*dsl.Field{
 			{Name: "X", Num: 1, T: dsl.String, JSONTag: dsl.S(tag)},
